@@ -9,6 +9,7 @@ from concurrent.futures import ThreadPoolExecutor
 from . import common
 
 _JAVA = ["java", "-XX:+UseParallelGC"]
+_RUNS = 0
 
 
 def _tlc_cmd(spec, cfg, metadir, workers, extra=(), heap="2g"):
@@ -18,7 +19,9 @@ def _tlc_cmd(spec, cfg, metadir, workers, extra=(), heap="2g"):
 
 def run_tlc(spec, cfg, workers=1, env=None, extra=(), timeout=3600, heap="2g", tag="tlc"):
     """run TLC on /verif/spec/<spec> with <cfg> (path); returns (returncode, stdout)"""
-    metadir = os.path.join(common.scratch(), f"meta_{tag}_{os.getpid()}_{abs(hash((spec, cfg, tag))) % 10**8}")
+    global _RUNS
+    _RUNS += 1
+    metadir = os.path.join(common.scratch(), f"meta_{tag}_{os.getpid()}_{_RUNS}_{abs(hash((spec, cfg, tag))) % 10**8}")
     os.makedirs(metadir, exist_ok=True)
     e = dict(os.environ)
     e.pop("JAVA_TOOL_OPTIONS", None)
